@@ -38,11 +38,17 @@ pub struct Recorder {
     base: i64,
     tables: HashMap<String, Vec<Value>>, // last dumped buckets per node (for diffs)
     pub quiet_dumps: bool,
+    /// Projection mode (C01, runs of many virtual hours): only the lines that can touch token stores, peer stores and search
+    /// records are written (DESIGN §5 C01); table dumps are not carried.
+    pub projection: bool,
+    keep_step: HashSet<String>,
+    seen_success: HashSet<String>,
 }
 
 impl Recorder {
     pub fn new(path: &str) -> Res<Self> {
-        Ok(Self { out: TraceOut::create(path)?, seq: 0, base: 0, tables: HashMap::new(), quiet_dumps: false })
+        Ok(Self { out: TraceOut::create(path)?, seq: 0, base: 0, tables: HashMap::new(), quiet_dumps: false, projection: false,
+                  keep_step: HashSet::new(), seen_success: HashSet::new() })
     }
     pub fn reset(&mut self) {
         self.base = verif::now_ms();
@@ -53,6 +59,9 @@ impl Recorder {
         verif::now_ms() - self.base
     }
     pub fn put(&mut self, mut v: Value) {
+        if self.projection && !self.project(&mut v) {
+            return;
+        }
         self.seq += 1;
         v["seq"] = json!(self.seq);
         v["t"] = json!(self.now());
@@ -62,6 +71,36 @@ impl Recorder {
     }
     pub fn finish(&mut self) -> u64 {
         self.out.flush()
+    }
+
+    fn project(&mut self, v: &mut Value) -> bool {
+        let ev = v["ev"].as_str().unwrap_or("").to_owned();
+        let node = v["node"].to_string();
+        match ev.as_str() {
+            "Reset" | "NodeCfg" | "NodeStart" | "ApiSearch" | "LookupStart" | "LookupDone" | "LookupQueued" | "Yield" | "Closed" | "End"
+            | "Scenario" | "ApiState" | "ApiBootWait" | "ApiBootRet" | "Shutdown" => true,
+            "BootSuccess" => self.seen_success.insert(node),
+            "Recv" => {
+                let q = v["m"]["q"].as_str().unwrap_or("");
+                if v["m"]["y"] == "q" && (q == "announce_peer" || q == "get_peers") {
+                    self.keep_step.insert(node);
+                    true
+                } else {
+                    false
+                }
+            }
+            "HStep" => v["kind"] == "incoming" && self.keep_step.contains(&node),
+            "Send" => self.keep_step.contains(&node) && v["m"]["y"] != "q",
+            "HEnd" => {
+                if self.keep_step.remove(&node) {
+                    v["ch"] = json!([1, []]);
+                    true
+                } else {
+                    false
+                }
+            }
+            _ => false,
+        }
     }
 
     fn val_json(&self, v: &Val) -> Value {
